@@ -59,6 +59,7 @@ type FuncCtx struct {
 	curLoopIdx     []types.Object
 	globals        map[*types.Var]Val
 	pcParts        map[string][]string
+	pcAnd          map[string][2]string // pc name -> (narrowed pc, narrowing conditions)
 	nclosure       int
 	heapInit       map[string]Term
 	arrAlloc       map[Term]Term
@@ -110,6 +111,16 @@ func (fx *FuncCtx) name(sort, hint string, t Term) Term {
 	}
 	n := fx.freshName(hint)
 	fx.emit(fmt.Sprintf("(define-fun %s () %s %s)", n, sort, t))
+	if hint == "pc" && strings.HasPrefix(t, "(and pc_") {
+		// a path condition that narrows another one: remembered so that case splits over merged
+		// paths can be pushed through the narrowing
+		if k := strings.IndexByte(t[5:], ' '); k > 0 {
+			if fx.pcAnd == nil {
+				fx.pcAnd = map[string][2]string{}
+			}
+			fx.pcAnd[n] = [2]string{t[5 : 5+k], t[5+k+1 : len(t)-1]}
+		}
+	}
 	return n
 }
 
@@ -180,6 +191,16 @@ func (fx *FuncCtx) pcDisjuncts(pc Term, limit int) []Term {
 			if parts, ok := fx.pcParts[p]; ok && len(out)+len(parts)-1 <= limit {
 				next = append(next, parts...)
 				changed = true
+			} else if an, ok := fx.pcAnd[p]; ok && fx.con != nil && fx.con.Options["casesplit"] == "true" {
+				sub := fx.pcDisjuncts(an[0], limit-len(out)+1)
+				if len(sub) > 1 {
+					for _, d := range sub {
+						next = append(next, fx.name(sortBool, "pc", "(and "+d+" "+an[1]+")"))
+					}
+					changed = true
+				} else {
+					next = append(next, p)
+				}
 			} else {
 				next = append(next, p)
 			}
